@@ -72,6 +72,8 @@ import (
 	"fmt"
 	"io"
 	"os"
+	"strconv"
+	"sync"
 
 	"github.com/a-h/templ"
 )
@@ -154,53 +156,85 @@ func failingMarker(after int) templ.Component {
 	})
 }
 
+func runJob(j job, parallel bool) (r result) {
+	w := &faultWriter{failAt: j.WriterFailAt, zero: j.Zero}
+	if !parallel {
+		Trace = nil
+	}
+	func() {
+		defer func() {
+			if x := recover(); x != nil {
+				r.Err = fmt.Sprintf("panic: %v", x)
+			}
+		}()
+		a := j.Args
+		var comp templ.Component = marker
+		if j.CompFailAfter >= 0 {
+			comp = failingMarker(j.CompFailAfter)
+		}
+		ctx := context.Background()
+		if j.Cancelled {
+			c, cancel := context.WithCancel(ctx)
+			cancel()
+			ctx = c
+		}
+		c := roots[j.K](a.S1, a.S2, a.B1, a.B2, a.N, a.XS, a.Fail, comp)
+		if err := c.Render(ctx, w); err != nil {
+			r.Err = err.Error()
+			r.Boom = errors.Is(err, errBoom)
+			r.WriterErr = errors.Is(err, errWriter)
+			r.CompErr = errors.Is(err, errComp)
+			r.Canceled = errors.Is(err, context.Canceled)
+			var te templ.Error
+			if errors.As(err, &te) {
+				r.HasTemplError = true
+				r.ErrFile, r.ErrLine = te.FileName, te.Line
+			}
+		}
+	}()
+	r.Out = w.buf.Bytes()
+	if !parallel {
+		r.Trace = Trace
+	}
+	r.Writes = w.writes
+	return r
+}
+
 func main() {
 	sc := bufio.NewScanner(os.Stdin)
 	sc.Buffer(make([]byte, 1<<20), 1<<26)
 	enc := json.NewEncoder(os.Stdout)
+	var jobs []job
 	for sc.Scan() {
 		j := job{WriterFailAt: -1, CompFailAfter: -1}
 		if err := json.Unmarshal(sc.Bytes(), &j); err != nil {
 			fmt.Fprintln(os.Stderr, "bad job:", err)
 			os.Exit(3)
 		}
-		w := &faultWriter{failAt: j.WriterFailAt, zero: j.Zero}
-		var r result
-		Trace = nil
-		func() {
-			defer func() {
-				if x := recover(); x != nil {
-					r.Err = fmt.Sprintf("panic: %v", x)
-				}
-			}()
-			a := j.Args
-			var comp templ.Component = marker
-			if j.CompFailAfter >= 0 {
-				comp = failingMarker(j.CompFailAfter)
+		jobs = append(jobs, j)
+	}
+	// VERIF_PARALLEL=N: the jobs are rendered by N goroutines at the same time (programs must not use
+	// tick(), whose trace is a package variable); results are still reported in job order.
+	n, _ := strconv.Atoi(os.Getenv("VERIF_PARALLEL"))
+	if n <= 1 {
+		for _, j := range jobs {
+			_ = enc.Encode(runJob(j, false))
+		}
+		return
+	}
+	results := make([]result, len(jobs))
+	var wg sync.WaitGroup
+	for g := 0; g < n; g++ {
+		wg.Add(1)
+		go func(g int) {
+			defer wg.Done()
+			for i := g; i < len(jobs); i += n {
+				results[i] = runJob(jobs[i], true)
 			}
-			ctx := context.Background()
-			if j.Cancelled {
-				c, cancel := context.WithCancel(ctx)
-				cancel()
-				ctx = c
-			}
-			c := roots[j.K](a.S1, a.S2, a.B1, a.B2, a.N, a.XS, a.Fail, comp)
-			if err := c.Render(ctx, w); err != nil {
-				r.Err = err.Error()
-				r.Boom = errors.Is(err, errBoom)
-				r.WriterErr = errors.Is(err, errWriter)
-				r.CompErr = errors.Is(err, errComp)
-				r.Canceled = errors.Is(err, context.Canceled)
-				var te templ.Error
-				if errors.As(err, &te) {
-					r.HasTemplError = true
-					r.ErrFile, r.ErrLine = te.FileName, te.Line
-				}
-			}
-		}()
-		r.Out = w.buf.Bytes()
-		r.Trace = Trace
-		r.Writes = w.writes
+		}(g)
+	}
+	wg.Wait()
+	for _, r := range results {
 		_ = enc.Encode(r)
 	}
 }
